@@ -878,8 +878,22 @@ def make_cases(ctx):
         prows = prows[:2]
         node = gen_csg_node(rng, params, prows, rng.choice([2, 2, 3]) if ctx.quick else rng.choice([2, 3, 3, 4]))
         if node is not None:
-            add("csg", node, params, prows, N=ctx.scale(60000, 120000), n_small=rng.choice([2, 3, 7, 40]),
-                api=rng.choice(["dom.n", "smp.n", "smp.n2", "dom.d"]) if len(prows) <= 1 else rng.choice(["dom.n", "smp.n", "smp.n2"]))
+            flt = None
+            if rng.random() < 0.25:
+                e0 = fenv(prows[0]) if prows else {}
+                bx = shp(node, e0).bounds
+                col = rng.choice([0, 1]) if DIM[node.vars()[0]] == 2 else 0
+                lo_, hi_ = (bx[0], bx[2]) if col == 0 else (bx[1], bx[3])
+                flt = [col, str(Fr(round(16 * (lo_ + (hi_ - lo_) * rng.choice([0.4, 0.5, 0.6]))), 16)), rng.choice([0, 1])]
+                # both the kept and the removed part must be substantial at every parameter row (else the filtered sampler gives up)
+                for r_ in (prows or [{}]):
+                    g_ = shp(node, fenv(r_))
+                    kept = csg_probs(node, fenv(r_), DIM[node.vars()[0]], 2, flt)[3]
+                    if not (0.2 * g_.area <= kept <= 0.8 * g_.area):
+                        flt = None
+                        break
+            add("csg", node, params, prows, N=ctx.scale(60000, 120000), n_small=rng.choice([2, 3, 7, 40]), filter=flt,
+                api="smp.f" if flt else (rng.choice(["dom.n", "smp.n", "smp.n2", "dom.d"]) if len(prows) <= 1 else rng.choice(["dom.n", "smp.n", "smp.n2"])))
     # 4. overlapping unions: as-coded mixture law, choice correspondence (known finding: not uniform)
     for _ in range(ctx.scale(8, 80)):
         params, prows = pr()
@@ -950,11 +964,75 @@ def make_cases(ctx):
             continue
         add("gauss", node, params, prows, N=ctx.scale(40000, 100000), n_small=rng.choice([3, 7, 40]),
             std_factor=float(rng.choice([Fr(3, 8), Fr(3, 4), Fr(1)])), off=[float(dy(rng, -0.75, 0.75)) for _ in range(2)])
+    # 7b. Gaussian sampler with the mean outside the domain / far in the tail (acceptance 0.5 % .. 4 %), 1-D and 2-D boxes
+    for _ in range(ctx.scale(6, 60)):
+        params, prows = pr()
+        prows = prows[:1]
+        for _try in range(50):
+            node = box_node(rng, params)
+            if node.kind == "prod":
+                continue
+            d_, f_ = rng.choice([(Fr(3, 5), Fr(3, 10)), (Fr(4, 5), Fr(2, 5)), (Fr(1, 2), Fr(1, 4)), (Fr(9, 20), Fr(1, 4))])
+            side = rng.choice([-1, 1])
+            b0 = box_bounds(node, prows[0] if prows else {})
+            sig = float(f_) * float(b0[0][1] - b0[0][0])
+            p = 1.0
+            for ax, (lo, hi) in enumerate(b0):
+                w = float(hi - lo)
+                mu = (float(lo) - float(d_) * w if side < 0 else float(hi) + float(d_) * w) if ax == 0 else float(lo + hi) / 2
+                p *= norm_cdf((float(hi) - mu) / sig) - norm_cdf((float(lo) - mu) / sig)
+            if 0.005 <= p <= 0.04:
+                add("gauss", node, params, prows, N=ctx.scale(20000, 40000), n_small=rng.choice([3, 7, 40]), std_axis0=float(f_),
+                    off=[side * (1 + 2 * float(d_)), 0.0], acceptance=round(p, 4))
+                break
+    # 7c. Gaussian sampler on a disc / ball with the mean in the centre (exact radial law), with parameter rows that do not matter
+    for _ in range(ctx.scale(4, 40)):
+        params, prows = pr()
+        g0 = Gen(rng, params=[])
+        node = g0.prim3("z") if rng.random() < 0.5 else Node("circle", "x", [g0.vec([dy(rng, -2, 2), dy(rng, -2, 2)]), PF([geomgen.c(dy(rng, 0.25, 2))])])
+        add("gauss", node, params, prows[:2], N=ctx.scale(30000, 80000), n_small=rng.choice([3, 7, 40]),
+            std_radius=float(rng.choice([Fr(1, 2), Fr(1), Fr(2)])), off=[0.0, 0.0, 0.0])
     # 8. interval grids
     for _ in range(ctx.scale(60, 600)):
         params, prows = pr()
         g = Gen(rng, params=params)
         add("grid", g.prim1("y"), params, prows[:1], n=rng.choice([1, 2, 3, 4, 7, 12, 40, 100, 257]), m=rng.choice([2, 3, 4, 5, 8, 16]))
+    # 9. grids of every primitive, primitive boundary and the polygon: extreme aspect ratios / sizes, n from 1 to 1000
+    for i in range(ctx.scale(70, 700)):
+        n = rng.choice([1, 2, 3, 5, 10, 30, 100, 100, 400, 1000])
+        api = rng.choice(["dom.grid", "dom.grid", "smp.grid"])
+        pick = rng.choice(["extreme", "extreme", "extreme", "prim", "prim", "bdry", "bdry", "poly"])
+        if pick == "poly":
+            pb = rng.random() < 0.35
+            cases.append(dict(id=len(cases), kind="gridx", dom=None, poly=rng.choice(sorted(POLYGONS)), polybdry=pb, params=[], prows=[], n=n,
+                              api="dom.grid" if pb else api, seed=rng.randint(0, 2 ** 31 - 1), names=rng.choice(NAME_SCHEMES), param_order_reversed=False))
+            continue
+        if pick == "extreme":
+            node, params, prows = extreme_shape(rng), [], []
+        else:
+            params = rng.choice([[], [], ["t"]])
+            prows = gen_prows(rng, params, 1 if params else 0)
+            node = Gen(rng, params=params).prim(rng.choice(["x", "x", "x", "z", "y"]))
+            if pick == "bdry" or node.kind == "interval":
+                node = Node("bdry", None, [], [node])
+        if pick == "extreme" and rng.random() < 0.25:
+            node = Node("bdry", None, [], [node])
+        if node.kind in ("par", "circle") and rng.random() < 0.3:
+            api = "dom.grid.d"
+        add("gridx", node, params, prows, n=n, api=api)
+    # 10. ShapelyPolygon: random uniform law
+    for i in range(ctx.scale(4, 40)):
+        cases.append(dict(id=len(cases), kind="poly", dom=None, poly=rng.choice(sorted(POLYGONS)), polybdry=(i % 2 == 1), params=[], prows=[],
+                          N=ctx.scale(6000, 30000), seed=rng.randint(0, 2 ** 31 - 1), names=rng.choice(NAME_SCHEMES), param_order_reversed=False))
+    for d_ in (1, 2, 3):
+        cases.append(dict(id=len(cases), kind="poly", dom=None, point=[str(dy(rng, -2, 2)) for _ in range(d_)], params=[], prows=[], seed=0,
+                          names=rng.choice(NAME_SCHEMES), param_order_reversed=False))
+    # 11. random-uniform law on extreme aspect ratios / sizes
+    for i in range(ctx.scale(8, 80)):
+        node = extreme_shape(rng)
+        if rng.random() < 0.3:
+            node = Node("bdry", None, [], [node])
+        add("law", node, [], [], N=NBIG, api=rng.choice(["dom.n", "smp.n", "dom.d"]))
     return cases
 
 
@@ -984,6 +1062,17 @@ def sample_big(tp, dom, node, case, api, N):
         res = common.call_with_timeout(TIMEOUT, lambda: dom.sample_random_uniform(d=N / max(vol, 1e-9), params=params))
         return [coords_of(node, res, len(res))]
     params = mk_params(tp, names, prows)
+    if api == "smp.f":
+        col, thr, sense = case["filter"]
+        var = nm(node.vars()[0])
+        ns = {}
+        exec(f"def _flt({var}):\n    return ({var}[:, {col}:{col + 1}] {'>=' if sense else '<='} {float(Fr(thr))!r})\n", ns)
+        res = common.call_with_timeout(TIMEOUT, lambda: S.RandomUniformSampler(dom, n_points=N, filter_fn=ns["_flt"]).sample_points(params))
+        X = coords_of(node, res, len(res))
+        kk = max(k, 1)
+        if len(X) != N * kk:
+            raise RowCount(f"filtered sampler: {len(X)} rows returned for n={N} and {k} parameter rows")
+        return [X[i * N:(i + 1) * N] for i in range(kk)]
     if api == "smp.n2":
         # one sampler object called twice; the first result is overwritten by the caller; both samples are tested
         smp = S.RandomUniformSampler(dom, n_points=N)
@@ -1014,6 +1103,8 @@ class RowCount(Exception):
 
 
 def desc(case):
+    if not case.get("dom"):
+        return ("Point " + str(case["point"])) if case.get("point") else "ShapelyPolygon " + str(POLYGONS.get(case.get("poly")))
     node = geomgen.from_json(case["dom"])
     return node.tokens()
 
@@ -1214,8 +1305,15 @@ def run_law(tp, rep, case):
     law_tests(rep, case, node, Xs)
 
 
-def csg_probs(node, env, dim, g=6):
+def csg_probs(node, env, dim, g=6, flt=None):
     geom = shp(node, env)
+    if flt:     # RandomUniformSampler(filter_fn=half space): uniform on the domain conditioned to the half space
+        from shapely.geometry import box
+        col, thr, sense = flt[0], float(Fr(flt[1])), flt[2]
+        x0, y0, x1, y1 = geom.bounds
+        half = (box(thr, y0 - 1, x1 + 1, y1 + 1) if sense else box(x0 - 1, y0 - 1, thr, y1 + 1)) if col == 0 else \
+               (box(x0 - 1, thr, x1 + 1, y1 + 1) if sense else box(x0 - 1, y0 - 1, x1 + 1, thr))
+        geom = geom.intersection(half)
     cells, bounds = grid_cells(geom, dim, g)
     areas = [geom.intersection(c).area for c in cells]
     tot = sum(areas)
@@ -1227,7 +1325,7 @@ def csg_tests(rep, case, node, Xs, dim, tag=""):
     bad = 0
     for i, X in enumerate(Xs):
         env = fenv(row_env(case, i))
-        geom, bounds, probs, tot = csg_probs(node, env, dim, g)
+        geom, bounds, probs, tot = csg_probs(node, env, dim, g, case.get("filter") if case.get("api") == "smp.f" else None)
         idx = grid_index(X, bounds, dim, g)
         counts = np.bincount(idx, minlength=len(probs)).tolist()
         labels = [f"grid cell {j} of the {g}{'x' + str(g) if dim == 2 else ''} partition of the bounding box {tuple(round(b, 4) for b in bounds)}" for j in range(len(probs))]
@@ -1819,9 +1917,21 @@ def run_gauss(tp, rep, case, lines, posts):
     params = mk_params(tp, case["params"], prows)
     kk = max(len(prows), 1)
     dim = DIM[node.vars()[0]]
-    b0 = box_bounds(node, prows[0] if prows else {})
-    std = case["std_factor"] * float(sum(hi - lo for lo, hi in b0)) / len(b0)     # a dyadic number
-    mean = [float((lo + hi) / 2) + case["off"][ax] * float(hi - lo) / 2 for ax, (lo, hi) in enumerate(b0)]
+    round_domain = node.kind in ("circle", "sphere")
+    if round_domain:
+        ctr = [float(x) for x in node.pfs[0].eval({})]
+        rad = float(node.pfs[1].eval({})[0])
+        b0 = [(Fr(c_ - rad), Fr(c_ + rad)) for c_ in ctr]
+        std = case["std_radius"] * rad
+        mean = ctr
+    else:
+        b0 = box_bounds(node, prows[0] if prows else {})
+        if "std_axis0" in case:
+            std = case["std_axis0"] * float(b0[0][1] - b0[0][0])
+        else:
+            std = case["std_factor"] * float(sum(hi - lo for lo, hi in b0)) / len(b0)     # a dyadic number
+        mean = [float((lo + hi) / 2) + case["off"][ax] * float(hi - lo) / 2 for ax, (lo, hi) in enumerate(b0)]
+    rep.count("gauss:" + ("centred disc/ball" if round_domain else "tail (acceptance < 4%)" if "std_axis0" in case else "box, mean inside"))
     S = tp.samplers
     # ---- selection correspondence (small n)
     Proxy = build_proxy_class(tp)
@@ -1889,19 +1999,37 @@ def run_gauss(tp, rep, case, lines, posts):
     m = 8 if dim == 1 else 4
     for i in range(kk):
         env = prows[i % kk_rows] if prows else {}
-        bounds = box_bounds(node, env)
         Xi = X[i * N:(i + 1) * N]
-        parts, pax = [], []
-        for ax, (lo, hi) in enumerate(bounds):
-            lo, hi = float(lo), float(hi)
-            parts.append((_bin((Xi[:, ax] - lo) / (hi - lo), m), m))
-            edges = [lo + (hi - lo) * j / m for j in range(m + 1)]
-            cdf = [norm_cdf((e - mean[ax]) / std) for e in edges]
-            z = cdf[-1] - cdf[0]
-            pax.append([(cdf[j + 1] - cdf[j]) / z for j in range(m)])
-        idx = _combine(parts)
-        probs = pax[0] if dim == 1 else [p * q_ for p in pax[0] for q_ in pax[1]]
-        labels = [f"cell {j} of the {m}{'x' + str(m) if dim == 2 else ''} partition of the box" for j in range(len(probs))]
+        if round_domain:
+            # isotropic normal centred in the ball: the radius has the (truncated) Rayleigh / Maxwell law, the direction is uniform
+            dvec = Xi - np.array(ctr)
+            rho = np.sqrt((dvec ** 2).sum(1))
+            F = (lambda a: 1 - math.exp(-a * a / (2 * std * std))) if dim == 2 else \
+                (lambda a: math.erf(a / (std * math.sqrt(2))) - math.sqrt(2 / math.pi) * (a / std) * math.exp(-a * a / (2 * std * std)))
+            mr = 4
+            pr_ = [(F(rad * (j + 1) / mr) - F(rad * j / mr)) / F(rad) for j in range(mr)]
+            parts = [(_bin(rho / rad, mr), mr)]
+            ang = np.mod(np.arctan2(dvec[:, 1], dvec[:, 0]), 2 * math.pi) / (2 * math.pi)
+            if dim == 2:
+                parts.append((_bin(ang, 8), 8)); pdir = [1 / 8] * 8
+            else:
+                parts += [(_bin((dvec[:, 2] / np.maximum(rho, 1e-30) + 1) / 2, 4), 4), (_bin(ang, 4), 4)]; pdir = [1 / 16] * 16
+            idx = _combine(parts)
+            probs = [a_ * b_ for a_ in pr_ for b_ in pdir]
+            labels = [f"radius bin {a_ + 1}/{mr}, direction cell {b_ + 1}/{len(pdir)}" for a_ in range(mr) for b_ in range(len(pdir))]
+        else:
+            bounds = box_bounds(node, env)
+            parts, pax = [], []
+            for ax, (lo, hi) in enumerate(bounds):
+                lo, hi = float(lo), float(hi)
+                parts.append((_bin((Xi[:, ax] - lo) / (hi - lo), m), m))
+                edges = [lo + (hi - lo) * j / m for j in range(m + 1)]
+                cdf = [norm_cdf((e - mean[ax]) / std) for e in edges]
+                z = cdf[-1] - cdf[0]
+                pax.append([(cdf[j + 1] - cdf[j]) / z for j in range(m)])
+            idx = _combine(parts)
+            probs = pax[0] if dim == 1 else [p * q_ for p in pax[0] for q_ in pax[1]]
+            labels = [f"cell {j} of the {m}{'x' + str(m) if dim == 2 else ''} partition of the box" for j in range(len(probs))]
         rep.count("chi2-tests")
         nout = int((idx < 0).sum())
         if nout:
@@ -1977,6 +2105,250 @@ def run_grid(tp, rep, case, lines, posts):
     posts.append(post)
 
 
+def stat_bound(m, p):
+    """Bernstein bound (level ALPHA) for the deviation of a Binomial(m, p) count from m p: the random top-up points of a grid"""
+    if m <= 0:
+        return 0.0
+    return math.sqrt(2 * m * p * (1 - p) * L_ALPHA) + 2 * L_ALPHA / 3
+
+
+def extreme_shape(rng):
+    """parallelogram / triangle with an extreme aspect ratio and / or size, any orientation, optionally sheared"""
+    L, W = rng.choice([(100, Fr(1, 4)), (Fr(1, 4), 100), (30, Fr(1, 4)), (400, 1), (1, 1), (Fr(1, 256), Fr(1, 256)), (1000, 1000), (3, Fr(1, 8))])
+    co, si = rng.choice([(Fr(1), Fr(0)), (Fr(3, 5), Fr(4, 5)), (Fr(0), Fr(1)), (Fr(-4, 5), Fr(3, 5))])
+    sh = rng.choice([Fr(0), Fr(0), Fr(1, 2)])
+    o = [dy(rng, -2, 2), dy(rng, -2, 2)]
+    d1 = [L * co, L * si]
+    d2 = [W * (-si) + sh * d1[0], W * co + sh * d1[1]]
+    kind = rng.choice(["par", "par", "tri"])
+    pf = lambda p: PF([geomgen.c(p[0]), geomgen.c(p[1])])
+    return Node(kind, "x", [pf(o), pf([o[0] + d1[0], o[1] + d1[1]]), pf([o[0] + d2[0], o[1] + d2[1]])])
+
+
+POLYGONS = {
+    "strip": [(0, 0), (100, 0), (100, 0.25), (0, 0.25)], "tall-strip": [(0, 0), (0.25, 0), (0.25, 30), (0, 30)],
+    "L": [(0, 0), (3, 0), (3, 1), (1, 1), (1, 3), (0, 3)], "quad": [(0, 0), (4, 1), (5, 4), (-1, 2)],
+    "unit-square": [(0, 0), (1, 0), (1, 1), (0, 1)], "thin-L": [(0, 0), (40, 0), (40, 1), (1, 1), (1, 40), (0, 40)],
+    "tiny-triangle": [(0, 0), (0.01, 0), (0, 0.02)],
+}
+
+
+def poly_edge_partition(vs, P, sub=2):
+    """cells of a polygon outline: every edge cut into `sub` equal parts; share = length share"""
+    V = np.array(vs, dtype=float)
+    E = np.roll(V, -1, axis=0) - V
+    ln = np.sqrt((E ** 2).sum(1))
+    best_d = np.full(len(P), np.inf); best_e = np.zeros(len(P), dtype=int); best_t = np.zeros(len(P))
+    for e in range(len(V)):
+        q = P - V[e]
+        t = np.clip((q @ E[e]) / (ln[e] ** 2), 0, 1)
+        dist = np.sqrt(((q - t[:, None] * E[e]) ** 2).sum(1))
+        upd = dist < best_d
+        best_d[upd], best_e[upd], best_t[upd] = dist[upd], e, t[upd]
+    idx = best_e * sub + np.minimum((best_t * sub).astype(int), sub - 1)
+    idx[best_d > 1e-4 * ln.max()] = -1
+    tot = ln.sum()
+    return idx, [l_ / tot / sub for l_ in ln for _ in range(sub)], [f"edge {e + 1}, part {j + 1}/{sub}" for e in range(len(V)) for j in range(sub)]
+
+
+def grid_cells_of(case, node, P, env):
+    """cells of the evenness oracle: list of (label, count, share, deterministic bound)"""
+    n = len(P)
+    out = []
+    if case.get("poly") and case.get("polybdry"):
+        idx, probs, labels = poly_edge_partition(POLYGONS[case["poly"]], P)
+        cnts = np.bincount(idx[idx >= 0], minlength=len(probs)).tolist()
+        out = [("outside the outline", int((idx < 0).sum()), 0.0, 0.0)] if (idx < 0).any() else []
+        return out + [(lb, cnts[j], probs[j], 3.0) for j, lb in enumerate(labels)]
+    if case.get("poly"):
+        from shapely.geometry import Polygon, box
+        poly = Polygon(POLYGONS[case["poly"]])
+        x0, y0, x1, y1 = poly.bounds
+        for ax, (lo, hi, olo, ohi) in enumerate(((x0, x1, y0, y1), (y0, y1, x0, x1))):
+            det = 2 * (math.sqrt(n * (ohi - olo) / (hi - lo)) + 1) + 2
+            for m in (2, 4):
+                for c in range(m):
+                    a, b = lo + (hi - lo) * c / m, lo + (hi - lo) * (c + 1) / m
+                    cell = box(a, y0, b, y1) if ax == 0 else box(x0, a, x1, b)
+                    cnt = int(((P[:, ax] >= a) & (P[:, ax] < b)).sum())
+                    out.append((f"part {c + 1}/{m} of the bounding box along axis {ax}", cnt, poly.intersection(cell).area / poly.area, det))
+        return out
+    k = node.kind
+    if k in ("par", "tri"):
+        o, c1, c2 = [pf_np(p, env) for p in node.pfs]
+        s_, t_ = _bary(P, o, c1, c2)
+        l1 = math.hypot(c1[0] - o[0], c1[1] - o[1]); l2 = math.hypot(c2[0] - o[0], c2[1] - o[1])
+        for name, u, li, lo_ in (("first", s_, l1, l2), ("second", t_, l2, l1)):
+            for m in (2, 4):
+                for c in range(m):
+                    a, b = c / m, (c + 1) / m
+                    cnt = int(((u >= a - 1e-9) & (u < b - 1e-9)).sum())
+                    if k == "par":
+                        # Props/C11Grid.lean baryGrid_count_factor: count = (nodes of this axis in [a,b)) * (nodes across), so the
+                        # deviation is < 2 * (nodes across) <= 2 (floor(sqrt(n l_other / l_this)) + 1)
+                        out.append((f"barycentric {name} coordinate in [{a},{b})", cnt, 1 / m, 2 * (math.floor(math.sqrt(n * lo_ / li)) + 1) + 2))
+                    else:
+                        out.append((f"barycentric {name} coordinate in [{a},{b})", cnt, (1 - a) ** 2 - (1 - b) ** 2,
+                                    3 * (math.sqrt(n * max(l1 / l2, l2 / l1)) + 1)))
+        return out
+    if k == "circle":
+        c, (r,) = pf_np(node.pfs[0], env), pf_np(node.pfs[1], env)
+        d = P - np.array(c)
+        q = (d ** 2).sum(1) / r ** 2
+        ang = np.mod(np.arctan2(d[:, 1], d[:, 0]), 2 * math.pi) / (2 * math.pi)
+        det = 1.5 * (math.sqrt(n) + 1)
+        out += [(f"(|p-c|/r)^2 in [{j}/2,{j + 1}/2)", int(((q >= j / 2) & (q < (j + 1) / 2 + (1e-9 if j else 0))).sum()), 0.5, det) for j in range(2)]
+        out += [(f"angle/2pi in [{j}/4,{j + 1}/4)", int(((ang >= j / 4) & (ang < (j + 1) / 4)).sum()), 0.25, det) for j in range(4)]
+        return out
+    if k == "sphere":
+        c, (r,) = pf_np(node.pfs[0], env), pf_np(node.pfs[1], env)
+        d = P - np.array(c)
+        det = 2 * (n ** (2 / 3) + 1)
+        for ax in range(3):
+            out.append((f"half space coordinate {ax} below the centre", int((d[:, ax] < 0).sum()), 0.5, det))
+        out.append(("inner ball of half the volume", int((((d ** 2).sum(1)) ** 1.5 / r ** 3 < 0.5).sum()), 0.5, det))
+        return out
+    if k == "bdry":
+        ik = node.kids[0].kind
+        inner = node.kids[0]
+        if ik == "circle":
+            c, (r,) = pf_np(inner.pfs[0], env), pf_np(inner.pfs[1], env)
+            d = P - np.array(c)
+            ang = np.mod(np.arctan2(d[:, 1], d[:, 0]) + 1e-7, 2 * math.pi) / (2 * math.pi)
+            return [(f"arc angle/2pi in [{j}/4,{j + 1}/4)", int(((ang >= j / 4) & (ang < (j + 1) / 4)).sum()), 0.25, 2.0) for j in range(4)]
+        if ik == "sphere":
+            c, (r,) = pf_np(inner.pfs[0], env), pf_np(inner.pfs[1], env)
+            d = (P - np.array(c)) / r
+            det = 2 * (math.sqrt(n) + 1)
+            for ax in range(3):
+                u = (d[:, ax] + 1) / 2
+                out += [(f"zone {j + 1}/4 along coordinate {ax} (equal areas, Archimedes)", int(((u >= j / 4) & (u < (j + 1) / 4)).sum()), 0.25, det) for j in range(4)]
+            return out
+        if ik in ("par", "tri", "interval"):
+            idx, probs, labels = nat_partition(node, P, env)
+            cnts = np.bincount(idx[idx >= 0], minlength=len(probs)).tolist()
+            if (idx < 0).any():
+                out.append(("outside the boundary", int((idx < 0).sum()), 0.0, 0.0))
+            return out + [(lb, cnts[j], probs[j], 3.0 if ik != "interval" else 1.0) for j, lb in enumerate(labels)]
+    raise ValueError("no grid cells for " + k)
+
+
+def run_gridx(tp, rep, case):
+    """evenness of sample_grid / GridSampler for every primitive, primitive boundary and the polygon, on extreme aspect ratios
+    and sizes, n from 1 to 1000: every coarse cell holds its share of the n points up to a discretisation bound (theorem for the
+    parallelogram mesh, calibrated constants (>= 2x the worst deviation seen on the unchanged tree) otherwise) plus a Bernstein
+    bound for the points the code fills up at random (their number is read off the recorded draws)"""
+    import torch
+    n = case["n"]
+    node = geomgen.from_json(case["dom"]) if case.get("dom") else None
+    if case.get("poly"):
+        from torchphysics.problem.domains.domain2D.shapely_polygon import ShapelyPolygon
+        dom = ShapelyPolygon(tp.spaces.R2(nm("x")), vertices=[list(map(float, v)) for v in POLYGONS[case["poly"]]])
+        if case.get("polybdry"):
+            dom = dom.boundary
+        names = ["x"]
+    else:
+        dom = build_tp(node, tp)
+        names = node.vars()
+    prows = prows_of(case)
+    params = mk_params(tp, case["params"], prows)
+    torch.manual_seed(case["seed"])
+    dens = None
+    with Tape() as tape:
+        if case["api"] == "smp.grid":
+            res = common.call_with_timeout(TIMEOUT, lambda: tp.samplers.GridSampler(dom, n_points=n).sample_points(params))
+        elif case["api"] == "dom.grid.d":
+            dens = n / max(float(dom.volume(params).reshape(-1)[0]), 1e-12)       # density that asks for about n points
+            res = common.call_with_timeout(TIMEOUT, lambda: dom.sample_grid(d=dens, params=params))
+        else:
+            res = common.call_with_timeout(TIMEOUT, lambda: dom.sample_grid(n=n, params=params))
+    P = np.concatenate([res.coordinates[nm(v)].detach().double().numpy().reshape(len(res), DIM[v]) for v in names], axis=1)
+    what = f"{case['api']}(n={n}) of " + ((f"the outline of the polygon" if case.get("polybdry") else "the polygon") + f" '{case['poly']}'" if case.get("poly") else node.tokens())
+    if dens is not None:
+        # with a density the number of points is ceil(d * volume) at most (meshes may hold fewer nodes): evenness relative to what came back
+        if len(P) > n + 1:
+            rep.fail(f"{what} (density {dens:.4g}) returned {len(P)} points, more than ceil(d * volume) = {n}", inp_of(case))
+            return
+        if len(P) == 0:
+            rep.count("gridx:density-grid-empty")
+            return
+        n = len(P)
+    elif len(P) != n:
+        rep.fail(f"{what} returned {len(P)} points", inp_of(case))
+        return
+    if not np.isfinite(P).all():
+        rep.fail(f"{what} returned non-finite coordinates", inp_of(case))
+        return
+    m_rand = max([T.numel() // max(T.shape[-1], 1) for T in tape.of("rand")] + [0])
+    env = fenv(prows[0]) if prows else {}
+    rep.count("gridx:random-top-up" if m_rand else "gridx:deterministic")
+    for label, cnt, share, det in grid_cells_of(case, node, P, env):
+        bound = det + stat_bound(min(m_rand, n), share)
+        if abs(cnt - n * share) > bound:
+            rep.fail(f"{what} is not evenly spread: the cell '{label}' holds {cnt} of the {n} grid points, its share of the measure is "
+                     f"{n * share:.1f} (discretisation bound {det:.1f}" + (f" + {bound - det:.1f} for the {m_rand} points filled up at random" if m_rand else "") + ")",
+                     inp_of(case), detail=dict(points=P[:40].tolist()))
+            return
+    rep.count("gridx:even")
+
+
+def run_poly(tp, rep, case):
+    """ShapelyPolygon.sample_random_uniform: chi-square against Shapely cell areas"""
+    import torch
+    from shapely.geometry import Polygon
+    from torchphysics.problem.domains.domain2D.shapely_polygon import ShapelyPolygon
+    if case.get("point"):
+        # Point: every sample is the point itself (for every n, random and grid)
+        pt = [float(Fr(x)) for x in case["point"]]
+        sp = {1: tp.spaces.R1, 2: tp.spaces.R2, 3: tp.spaces.R3}[len(pt)](nm({1: "y", 2: "x", 3: "z"}[len(pt)]))
+        dom = tp.domains.Point(sp, pt)
+        for n in (1, 2, 7):
+            for f in (dom.sample_random_uniform, dom.sample_grid):
+                t = f(n=n).as_tensor
+                if tuple(t.shape) != (n, len(pt)) or not bool((t == torch.tensor(pt)).all()):
+                    rep.fail(f"Point({pt}).{f.__name__}(n={n}) returned {t.tolist()[:3]}", inp_of(case))
+                    return
+        rep.count("point:dirac")
+        return
+    vs = POLYGONS[case["poly"]]
+    dom = ShapelyPolygon(tp.spaces.R2(nm("x")), vertices=[list(map(float, v)) for v in vs])
+    if case.get("polybdry"):
+        torch.manual_seed(case["seed"])
+        N = case["N"]
+        res = common.call_with_timeout(TIMEOUT, lambda: dom.boundary.sample_random_uniform(n=N))
+        X = res.coordinates[nm("x")].detach().double().numpy()
+        idx, probs, labels = poly_edge_partition(vs, X, sub=3)
+        rep.count("chi2-tests")
+        if len(X) != N or (idx < 0).any():
+            rep.fail(f"outline of the polygon '{case['poly']}': sample_random_uniform(n={N}) returned {len(X)} rows, {int((idx < 0).sum())} of them off the outline", inp_of(case))
+            return
+        v = chi2_decide(np.bincount(idx, minlength=len(probs)).tolist(), probs, labels)
+        if not v["ok"]:
+            w = v["worst"]
+            fail_law(rep, case, f"outline of the polygon '{case['poly']}': not uniform in arclength: '{w['cell']}' received {w['observed']} of {v['N']} points, "
+                     f"its length share gives {w['expected']} (chi-square {v['stat']} > {v['bound']})", {}, v)
+        return
+    torch.manual_seed(case["seed"])
+    N = case["N"]
+    res = common.call_with_timeout(TIMEOUT, lambda: dom.sample_random_uniform(n=N))
+    X = res.coordinates[nm("x")].detach().double().numpy()
+    if len(X) != N:
+        rep.fail(f"ShapelyPolygon '{case['poly']}': sample_random_uniform(n={N}) returned {len(X)} rows", inp_of(case))
+        return
+    poly = Polygon(vs)
+    g = 6
+    cells, bounds = grid_cells(poly, 2, g)
+    probs = [poly.intersection(c).area / poly.area for c in cells]
+    idx = grid_index(X, bounds, 2, g)
+    counts = np.bincount(idx, minlength=len(probs)).tolist()
+    rep.count("chi2-tests")
+    v = chi2_decide(counts, probs, [f"grid cell {j} of the 6x6 partition of the bounding box" for j in range(len(probs))])
+    if not v["ok"]:
+        w = v["worst"]
+        fail_law(rep, case, f"ShapelyPolygon '{case['poly']}': the sample is not uniform: {w['cell']} received {w['observed']} of {v['N']} points, its share "
+                 f"of the measure gives {w['expected']} (chi-square {v['stat']} > {v['bound']})", {}, v, extra=dict(counts=counts, probabilities=probs))
+
+
 # =============================================================================================
 
 def run(ctx, rep, cases=None):
@@ -1996,7 +2368,7 @@ def run(ctx, rep, cases=None):
     lines, plan = [], []       # plan: (case, callable taking its replies, number of replies)
     tape_retry = []
     for cs in cases:
-        node = geomgen.from_json(cs["dom"])
+        node = geomgen.from_json(cs["dom"]) if cs.get("dom") else Node("par", "x", [PF([geomgen.c(0), geomgen.c(0)])] * 3)
         kind = cs["kind"]
         rep.count("kind:" + kind + (":" + cs["flavour"] if "flavour" in cs else "") + (":set_bounding_box" if cs.get("setbox") else ""))
         if "wrap" in cs:
@@ -2035,6 +2407,10 @@ def run(ctx, rep, cases=None):
                 run_gauss(tp, rep, cs, my_lines, posts)
             elif kind == "grid":
                 run_grid(tp, rep, cs, my_lines, posts)
+            elif kind == "gridx":
+                run_gridx(tp, rep, cs)
+            elif kind == "poly":
+                run_poly(tp, rep, cs)
             else:
                 raise ValueError(kind)
         except common.CallTimeout:
